@@ -359,7 +359,7 @@ fn build_pair(r: &mut Rng, out: &mut String, force_relation: bool) -> &'static s
             let gap = *r.pick(&[0u64, 0, 1]); // 1: one value belongs to neither side
             let extra = *r.pick(&[0u64, 0, 1]); // 1: one value belongs to both sides
             writeln!(out, "insert_range b0 in:{} ex:{}", bs, bs + cut).unwrap();
-            writeln!(out, "insert_range b1 in:{} ex:{}", bs + cut + gap - extra.min(cut + gap), bs + 65536).unwrap();
+            writeln!(out, "insert_range b1 in:{} in:{}", bs + cut + gap - extra.min(cut + gap), bs + 65535).unwrap();
             "b1"
         }
         // one side empty (or both)
